@@ -212,6 +212,13 @@ class LegacySparseDrugComboInteractionImpl:
     def reset_model(self):
         self.W = self.W * 0.0
         self.V2 = self.V2 * 0.0
+        # the shrinkage state goes back to its initial values as well
+        self.phi2 = 100.0 * np.ones_like(self.V2)
+        self.eta2 = np.ones(self.D, dtype=np.float32)
+        self.tau = 100.0 * np.ones(self.D, np.float32)
+        self.tau0 = 100.0
+        if self.mult_gamma_proc:
+            self.gam = np.ones(self.D, np.float32)
         self.prec = 100.0
         self.Mu = np.zeros(0, np.float32)
 
